@@ -16,7 +16,7 @@ LEVEL = "fault_enumeration"
 RULE = ("real processes of nbmerge (--out F with pre-existing sentinel / fresh F / stdout / --decisions --out) and git-nbmergedriver merge "
         "(%A = local file) run through vmon.launcher on generated triples incl. /dev/null placeholders (added on both sides, deleted on "
         "one side, deleted on both) and a 0-byte base, strategies by covering sample. (a) fault-free: exit status 0 iff the decisions "
-        "the library returned in that very run have no conflict; output parses as JSON equal to nbformat.writes(merged returned). "
+        "the library returned in that very run have no conflict; output parses as JSON equal to nbformat.writes(merged returned) AND to the library merge of the intended inputs computed independently in the harness (ids blanked); the base may also arrive through a named pipe. "
         "(b) fault enumeration: a recording run numbers the step boundaries (PY_START of read_notebook x3, diff_notebooks x2, "
         "decide_merge_with_diff, apply_decisions, nbformat.writes, _handle_agreed_deletion; open / every 4KiB write / close / remove of the "
         "output file); then for EVERY boundary k and EVERY fault kind in {OSError(EIO), MemoryError, KeyboardInterrupt, SIGKILL} a fresh "
@@ -25,7 +25,7 @@ RULE = ("real processes of nbmerge (--out F with pre-existing sentinel / fresh F
         "configured: git's clean/conflict verdict vs the driver's decisions, work-tree file vs what the driver wrote. "
         "Non-trivial: fault-free case with >= 1 decision; injected run counted once per (case class, mode, boundary name, fault kind).")
 FLOOR = {"quick": 120, "thorough": 400}
-REQUIRED_MONITORS = ("fault_free", "injected", "real_git")
+REQUIRED_MONITORS = ("fault_free", "injected", "real_git", "independent_library_merge")
 ASSUMPTIONS = ["faults are injected only at the listed boundaries of the merge process itself, never in logging handlers or child processes",
                "a fault inside a pure computation step behaves like one at its entry (nothing written yet)",
                "SIGKILL runs are judged only on: status != 0 and pre-open => output untouched", "watchdog expiry is inconclusive"]
@@ -56,7 +56,7 @@ def make_case(gen, r, d, force=None):
     cls, b, l, rm, info, waste = valid_triple(gen, cls=r.choice([None, None, "same_line", "del_vs_edit", "both_insert_dissimilar", "random", "same_output"]))
     if cls is None:
         return None
-    placeholder = r.choice(["none", "none", "none", "base_null", "local_null", "remote_null", "both_null", "empty_base"])
+    placeholder = r.choice(["none", "none", "none", "base_null", "local_null", "remote_null", "both_null", "empty_base", "fifo_base"])
     mode = r.choice(["out_sentinel", "out_fresh", "stdout", "driver", "driver", "decisions_out"])
     if force:
         placeholder, mode = force
@@ -73,7 +73,7 @@ def prepare(case, d, r):
     """(re)create the files of a case in directory d; returns (entry, argv, output_path, pre_state_bytes)"""
     for fn in os.listdir(d):
         p = os.path.join(d, fn)
-        if os.path.isfile(p):
+        if not os.path.isdir(p):
             os.remove(p)
     fb, fl, fr, fo = (os.path.join(d, n) for n in ("base.ipynb", "local.ipynb", "remote.ipynb", "out.ipynb"))
     rr = random.Random(1)     # same disk form in every re-run of the case
@@ -92,6 +92,11 @@ def prepare(case, d, r):
         al = ar = "/dev/null"
     elif ph == "empty_base":
         open(fb, "w").close()
+    elif ph == "fifo_base" and case["mode"] != "driver":
+        # the base arrives through a named pipe (what `nbmerge <(git show REV:nb.ipynb) mine theirs` does): a valid
+        # notebook whose stat size is 0; run() feeds it
+        ab = os.path.join(d, "base.fifo")
+        os.mkfifo(ab)
     mode = case["mode"]
     if mode == "driver":
         if al == "/dev/null":
@@ -137,10 +142,18 @@ def run(entry, argv, spec, d, timeout=120):
     sp = os.path.join(d, "spec.json")
     with open(sp, "w") as f:
         json.dump(spec, f)
+    feeder = None
+    fifo = os.path.join(d, "base.fifo")
+    if fifo in argv:
+        feeder = subprocess.Popen(["sh", "-c", "cat base.ipynb > base.fifo"], cwd=d, stdout=subprocess.DEVNULL, stderr=subprocess.DEVNULL)
     try:
         p = subprocess.run(launcher_cmd(entry, sp, argv), cwd=d, capture_output=True, timeout=timeout)
     except subprocess.TimeoutExpired:
         return None, b"", b"timeout"
+    finally:
+        if feeder is not None:
+            feeder.kill()
+            feeder.wait()
     return p.returncode, p.stdout, p.stderr
 
 
@@ -206,6 +219,7 @@ def fault_free(col, case, d, r):
     want_rc = 1 if dmp["conflict"] else 0
     if (rc == 0) != (want_rc == 0):
         col.violation("exit-status-disagrees-with-conflicts", "rc=%s but conflict=%s [mode=%s]" % (rc, dmp["conflict"], case["mode"]), cc, "exit-status")
+    got = None
     if case["mode"] == "decisions_out":
         try:
             got = json.loads(outbytes.decode("utf8"))
@@ -225,6 +239,33 @@ def fault_free(col, case, d, r):
             got = drop_filled_ids(got, dmp)
             if canon(got) != canon(want):
                 col.violation("output-differs-from-library-merge", "%s [mode=%s]" % (first_difference(got, want), case["mode"]), cc, "output")
+    # independent expectation: the library merge of the INTENDED inputs, computed here in the harness process (the dump
+    # above only shows what the command's own library call returned - it is blind to the command reading wrong inputs)
+    if case["mode"] in ("out_sentinel", "out_fresh", "stdout", "driver") and got is not None:
+        try:
+            import nbformat
+            from .. import nbd
+            from ..gen_nb import to_node
+            from ..workloads import merge_args
+            ph = case["placeholder"]
+            mini = nbformat.v4.new_notebook()
+            eb = mini if ph in ("base_null", "empty_base") else to_node(case["base"])
+            drv = case["mode"] == "driver"      # mirrors prepare(): git always hands the driver a real %A; with both_null also a real %B
+            el = mini if (ph in ("local_null", "both_null") and not drv) else to_node(case["local"])
+            er = mini if (ph == "remote_null" or (ph == "both_null" and not drv)) else to_node(case["remote"])
+            nbd.hygiene()
+            m2, d2 = nbd.merge_notebooks(eb, el, er, merge_args(case["config"]))
+            nbd.quiet_logging()
+            want2 = json.loads(nbformat.writes(m2))
+            conflict2 = any(d.get("conflict") for d in d2)
+            if canon(_drop_cell_ids(got)) != canon(_drop_cell_ids(want2)):
+                col.violation("output-differs-from-merge-of-the-given-inputs", "%s [mode=%s placeholder=%s]" % (
+                    first_difference(_drop_cell_ids(got), _drop_cell_ids(want2)), case["mode"], ph), cc, "output")
+            if (rc == 0) == conflict2:
+                col.violation("exit-status-disagrees-with-merge-of-the-given-inputs", "rc=%s, library merge of the inputs has conflict=%s [placeholder=%s]" % (rc, conflict2, ph), cc, "exit-status")
+            col.mon("independent_library_merge")
+        except Exception as e:
+            col.count("independent_library_merge_raised(C03's business)")
     if len(dmp["decisions"]) >= 1:
         col.nt(chash("ff", cc))
     if len(col.samples) < 1:
@@ -306,6 +347,14 @@ def _same_result(a, b):
         return canon(_blank_all_ids(json.loads(a.decode("utf8")))) == canon(_blank_all_ids(json.loads(b.decode("utf8"))))
     except Exception:
         return a == b
+
+
+def _drop_cell_ids(nb):
+    """two independent runs: marker-cell ids, ids filled in or de-duplicated by nbformat.write are random in each"""
+    nb = copy.deepcopy(nb)
+    for c in nb.get("cells", []):
+        c.pop("id", None)
+    return nb
 
 
 def _blank_all_ids(x):
